@@ -2,6 +2,7 @@ package props
 
 import (
 	"fmt"
+	"go.pennock.tech/tabular/length"
 	stdhtml "html"
 	"html/template"
 	"reflect"
@@ -443,12 +444,12 @@ func c06Check(c *Ctx, cs *c06Case, sample bool) {
 }
 
 func c06Random(c *Ctx, i int, r *gen.R) {
-	spec := r.Table(gen.TableOpts{MaxCols: 5, MaxRows: 6, ZeroHeaderOK: true, MinCols: 0, Noise: gen.NoiseSkipable | gen.NoiseAlign | gen.NoiseCallbacks,
+	spec := r.Table(gen.TableOpts{MaxCols: 5, MaxRows: 6, ZeroHeaderOK: true, MinCols: 0, Noise: gen.NoiseSkipable | gen.NoiseAlign | gen.NoiseCallbacks | gen.NoiseFailingCallbacks,
 		Item: func(r *gen.R) gen.ItemSpec {
 			if r.Chance(1, 30) {
 				return r.AnyItem(c06Fam, 4, 1)
 			}
-			return r.TextItem(c06Fam, 6)
+			return r.TextItemSized(c06Fam, 6, length.StringCells)
 		}})
 	cs := &c06Case{Table: spec}
 	opt := func() gen.Q {
